@@ -179,24 +179,37 @@ pub fn emit(kind: &str, field: &str, n: usize, j: usize) -> String {
     let mut out = String::from("(set-logic QF_LIA)\n");
     let mut goals = String::new();
     match kind {
-        // ifft(fft(a)) = a  and  fft(ifft(a)) = a
+        // ifft(fft(a)) = a
         "roundtrip" => {
             let a = declare_inputs(n, "x", &mut out);
             let mut b = a.clone();
             SymFelt::fft(&mut b, &fwd);
             SymFelt::ifft(&mut b, &inv, ninv(field, n));
             goals += &neq(&b, &a);
+        }
+        // fft(ifft(a)) = a
+        "roundtrip2" => {
+            let a = declare_inputs(n, "x", &mut out);
             let mut c = a.clone();
             SymFelt::ifft(&mut c, &inv, ninv(field, n));
             SymFelt::fft(&mut c, &fwd);
             goals += &neq(&c, &a);
         }
-        // merge(split(F)) = F ; split(fft(a)) = (fft(a_even), fft(a_odd))
-        "splitmerge" => {
+        // merge(split(F)) = F
+        "mergesplit" => {
             let a = declare_inputs(n, "x", &mut out);
             let (f0, f1) = SymFelt::split_fft(&a, &inv);
             let merged = SymFelt::merge_fft(&f0, &f1, &fwd);
             goals += &neq(&merged, &a);
+        }
+        // split(fft(a)) = (fft(a_even), fft(a_odd)) and merge of the half transforms = the full transform
+        "splitmerge" => {
+            let a = declare_inputs(n, "x", &mut out);
+            if n < 2 {
+                let (f0, f1) = SymFelt::split_fft(&a, &inv);
+                let merged = SymFelt::merge_fft(&f0, &f1, &fwd);
+                goals += &neq(&merged, &a);
+            }
             if n >= 2 {
                 let mut fa = a.clone();
                 SymFelt::fft(&mut fa, &fwd);
